@@ -30,6 +30,7 @@ structure DriverState where
 def step (st : DriverState) (line : String) : DriverState × String :=
   match (line.trimAscii.toString.splitOn " ").filter (· ≠ "") with
   | "sec" :: rest => (st, Run.Security.handle rest)
+  | ["echo", tok] => (st, "ok " ++ tok)      -- for checks whose oracle runs on the harness side only (the expected answer is `ok <tok>`)
   | "crc" :: rest => (st, Run.Crc.handle rest)
   | "fld" :: rest => (st, Run.Fields.handle rest)
   | "acse" :: rest => (st, Run.Acse.handle rest)
